@@ -1099,6 +1099,8 @@ func ParseExecBlock(p *ParserZH, mainIndent int) *syntax.ExecBlock {
 			p.unsetStmtCompleteFlag()
 			if match, _ := p.tryConsume(TypeCatchErrorW); match {
 				execBlock.CatchBlock = append(execBlock.CatchBlock, ParseCatchErrorStmt(p))
+			} else if match, _ := p.tryConsume(TypeStmtSep); match {
+				// 拦截 statements are separated like any statements: by a line break or by ；
 			} else {
 				// only 拦截 blocks may follow a 拦截 block (and no token is consumed here,
 				// so going on would loop forever)
